@@ -32,6 +32,17 @@ const (
 
 func user(i int) string { return userAddrs[i] }
 
+// userUpper is the all-upper-case bech32 spelling of the same account (accepted
+// by the SDK's bech32 decoder and therefore by ValidateBasic and the handlers).
+var userAddrsUpper = [...]string{
+	"COSMOS1ZQG3YYC5Z5TPWXQERGD3C8G7RUSZZG3R3GV4W0",
+	"COSMOS1YQSJYGEYY5NZW2PF9G4JCTFW9UCRZV3NWPY9DT",
+	"COSMOS1XQCNYVE5X5MRWWPE8GANC0F78AQYZSJR47XE0G",
+	"COSMOS1GPQ5YS6YG4RYWJZFFF95CN2WFAG9Z5JNZSARN2",
+}
+
+func userUpper(i int) string { return userAddrsUpper[i] }
+
 func addr(s string) sdk.AccAddress {
 	a, err := sdk.AccAddressFromBech32(s)
 	if err != nil {
@@ -182,3 +193,12 @@ func sellAmtZ(b types.Bid) nd.Z {
 }
 
 func joinKey(a, b uint64) collections.Pair[uint64, uint64] { return collections.Join(a, b) }
+
+func indexOfUser(a string) int {
+	for i, u := range userAddrs {
+		if u == a {
+			return i
+		}
+	}
+	panic("not a pool address")
+}
